@@ -239,12 +239,16 @@ class Config:
                 if actual_type != type_:
                     raise SocketTypeError(type_, actual_type)
             else:
-                bind = bind.replace("[", "").replace("]", "")
-                try:
-                    value = bind.rsplit(":", 1)
-                    host, port = value[0], int(value[1])
-                except (ValueError, IndexError):
-                    host, port = bind, 8000
+                if bind.startswith("[") and bind.endswith("]"):
+                    # A bare IPv6 address, e.g. [::1], with no port
+                    host, port = bind[1:-1], 8000
+                else:
+                    bind = bind.replace("[", "").replace("]", "")
+                    try:
+                        value = bind.rsplit(":", 1)
+                        host, port = value[0], int(value[1])
+                    except (ValueError, IndexError):
+                        host, port = bind, 8000
                 sock = socket.socket(socket.AF_INET6 if ":" in host else socket.AF_INET, type_)
 
                 if type_ == socket.SOCK_STREAM:
